@@ -450,7 +450,7 @@ def replay_finite(ctx, cell, case):
 
 def units(tier, seed):
     T = tier == "thorough"
-    N = 32_000_000 if T else 4_000_000
+    N = 16_000_000 if T else 4_000_000  # 16 workers x ~1 GB (32M samples per unit exhausted memory on a shared machine)
     us = [Unit("verbatim", "c07:unit_verbatim", {}, 1), Unit("conversions", "c07:unit_conversions", {}, 1), Unit("reuse", "c07:unit_reuse", {}, 2)]
     us += [Unit(f"laplacian_finite_{j}", "c07:unit_finite", {"chunks": 12 if T else 3, "offset": 100 * j}, 4) for j in range(3)]
     for kind in ("awgn", "laplacian", "nonlinear_id", "nonlinear_id_cartesian", "nonlinear_id_polar", "nonlinear_cubic", "fading_stage"):
